@@ -53,6 +53,7 @@
 #include "version_edit.h"
 #include "version_set.h"
 #include "write_batch.h"
+#include "util/verif.h"
 
 /*
  * DBImpl::ManualCompaction
@@ -308,6 +309,8 @@ ldb_istate_destroy(ldb_istate_t *state) {
 
   ldb_version_unref(state->version);
 
+  LCDB_EV(("IterFree", "\"it\":%d", LCDB_ID(state)));
+
   ldb_mutex_unlock(state->mu);
 
   ldb_free(state);
@@ -523,12 +526,18 @@ ldb_destroy_internal(ldb_t *db) {
 
   ldb_atomic_store(&db->shutting_down, 1, ldb_order_release);
 
+  LCDB_EV(("CloseStart", "\"sched\":%d", db->background_compaction_scheduled));
+
   while (db->background_compaction_scheduled)
     ldb_cond_wait(&db->background_work_finished_signal, &db->mutex);
+
+  LCDB_EV(("CloseWaited", "\"sched\":%d", db->background_compaction_scheduled));
 
   ldb_mutex_unlock(&db->mutex);
 
   ldb_pool_destroy(db->pool);
+
+  LCDB_EV(("CloseDone", "\"x\":0"));
 
   if (db->db_lock != NULL)
     ldb_unlock_file(db->db_lock);
@@ -572,6 +581,83 @@ static const ldb_comparator_t *
 ldb_user_comparator(const ldb_t *db) {
   return db->internal_comparator.user_comparator;
 }
+
+#ifdef LCDB_VERIF
+static void
+verif_files(const char *field, const ldb_vector_t *files) {
+  size_t i;
+
+  LCDB_ADD((",\"%s\":[", field));
+
+  for (i = 0; i < files->length; i++) {
+    const ldb_filemeta_t *f = files->items[i];
+
+    LCDB_ADD(("%s%lu", i ? "," : "", (unsigned long)f->number));
+  }
+
+  LCDB_ADD(("]"));
+}
+
+static void
+verif_comp_pick(ldb_t *db, ldb_cstate_t *state, int manual) {
+  const ldb_compaction_t *c = state->compaction;
+
+  LCDB_BEGIN("CompPick");
+  LCDB_ADD(("\"level\":%d,\"manual\":%d,\"ss\":%lu,\"last\":%lu",
+            c->level, manual,
+            (unsigned long)state->smallest_snapshot,
+            (unsigned long)db->versions->last_sequence));
+  verif_files("in0", &c->inputs[0]);
+  verif_files("in1", &c->inputs[1]);
+  verif_files("gp", &c->grandparents);
+  LCDB_END();
+}
+
+static void
+verif_obsolete(ldb_t *db, const rb_set64_t *live, const ldb_vector_t *del) {
+  rb_iter_t it;
+  size_t i;
+  int n = 0;
+
+  LCDB_BEGIN("Obsolete");
+  LCDB_ADD(("\"log\":%lu,\"prevlog\":%lu,\"manifest\":%lu,\"live\":[",
+            (unsigned long)db->versions->log_number,
+            (unsigned long)db->versions->prev_log_number,
+            (unsigned long)db->versions->manifest_file_number));
+
+  rb_tree_each(live, it)
+    LCDB_ADD(("%s%lu", n++ ? "," : "", (unsigned long)rb_key_ui(it)));
+
+  LCDB_ADD(("],\"del\":["));
+
+  for (i = 0; i < del->length; i++)
+    LCDB_ADD(("%s\"%s\"", i ? "," : "", (const char *)del->items[i]));
+
+  LCDB_ADD(("]"));
+  LCDB_END();
+}
+
+static void
+verif_group(ldb_t *db, ldb_waiter_t *last, uint64_t first, int count, int sync) {
+  ldb_waiter_t *w;
+  int n = 0;
+
+  LCDB_BEGIN("WGroup");
+  LCDB_ADD(("\"first\":%lu,\"count\":%d,\"sync\":%d,\"members\":[",
+            (unsigned long)first, count, sync));
+
+  for (w = db->writers.head; w != NULL; w = w->next) {
+    LCDB_ADD(("%s[%d,%d]", n++ ? "," : "", LCDB_ID(w),
+              w->batch != NULL ? (int)ldb_batch_count(w->batch) : -1));
+
+    if (w == last)
+      break;
+  }
+
+  LCDB_ADD(("]"));
+  LCDB_END();
+}
+#endif
 
 static int
 ldb_new_db(ldb_t *db) {
@@ -712,6 +798,10 @@ ldb_remove_obsolete_files(ldb_t *db) {
     }
   }
 
+#ifdef LCDB_VERIF
+  verif_obsolete(db, &live, &to_delete);
+#endif
+
   /* While deleting all files unblock other threads. All files being deleted
      have unique names which will not collide with newly created files and
      are therefore safe to delete while allowing other threads to proceed. */
@@ -733,6 +823,8 @@ ldb_remove_obsolete_files(ldb_t *db) {
     ldb_free_children(filenames, len);
 
   ldb_mutex_lock(&db->mutex);
+
+  LCDB_EV(("ObsoleteDone", "\"x\":0"));
 }
 
 static int
@@ -757,6 +849,9 @@ ldb_write_level0_table(ldb_t *db, ldb_memtable_t *mem,
 
   rb_set64_put(&db->pending_outputs, meta.number);
 
+  LCDB_EV(("FlushStart", "\"num\":%lu,\"mem\":%d,\"recovery\":%d",
+           (unsigned long)meta.number, LCDB_ID(mem), base == NULL));
+
   iter = ldb_memiter_create(mem);
 
   ldb_log(db->options.info_log, "Level-0 table #%lu: started",
@@ -770,6 +865,14 @@ ldb_write_level0_table(ldb_t *db, ldb_memtable_t *mem,
                          db->table_cache,
                          iter,
                          &meta);
+
+    if (rc == LDB_OK && meta.file_size > 0)
+      LCDB_KEEP(db->dbname, (unsigned long)meta.number);
+
+    LCDB_EV(("TableBuilt", "\"num\":%lu,\"size\":%lu,\"rc\":%d",
+             (unsigned long)meta.number, (unsigned long)meta.file_size, rc));
+
+    LCDB_PT(20);
 
     ldb_mutex_lock(&db->mutex);
   }
@@ -800,6 +903,9 @@ ldb_write_level0_table(ldb_t *db, ldb_memtable_t *mem,
                       meta.file_size,
                       &meta.smallest,
                       &meta.largest);
+
+    LCDB_EV(("FlushPick", "\"num\":%lu,\"level\":%d,\"size\":%lu",
+             (unsigned long)meta.number, level, (unsigned long)meta.file_size));
   }
 
   stats.micros = ldb_now_usec() - start_micros;
@@ -956,6 +1062,11 @@ ldb_recover_log_file(ldb_t *db, uint64_t log_number,
     ldb_memtable_unref(mem);
   }
 
+  LCDB_EV(("RecoverLog",
+           "\"num\":%lu,\"rc\":%d,\"maxseq\":%lu,\"reused\":%d,\"tables\":%d",
+           (unsigned long)log_number, rc, (unsigned long)*max_sequence,
+           db->logfile_number == log_number && db->log != NULL, compactions));
+
   return rc;
 }
 
@@ -1095,6 +1206,8 @@ ldb_record_background_error(ldb_t *db, int status) {
   if (db->bg_error == LDB_OK) {
     db->bg_error = status;
 
+    LCDB_EV(("BgError", "\"rc\":%d", status));
+
     ldb_cond_broadcast(&db->background_work_finished_signal);
   }
 }
@@ -1140,6 +1253,7 @@ ldb_compact_memtable(ldb_t *db) {
     ldb_memtable_unref(db->imm);
     db->imm = NULL;
     ldb_atomic_store(&db->has_imm, 0, ldb_order_release);
+    LCDB_EV(("ImmDone", "\"x\":0"));
     ldb_remove_obsolete_files(db);
   } else {
     ldb_record_background_error(db, rc);
@@ -1165,6 +1279,8 @@ ldb_open_compaction_output_file(ldb_t *db, ldb_cstate_t *state) {
     rb_set64_put(&db->pending_outputs, file_number);
 
     ldb_vector_push(&state->outputs, ldb_output_create(file_number));
+
+    LCDB_EV(("CompOutOpen", "\"num\":%lu", (unsigned long)file_number));
 
     ldb_mutex_unlock(&db->mutex);
   }
@@ -1246,6 +1362,16 @@ ldb_finish_compaction_output_file(ldb_t *db, ldb_cstate_t *state,
     }
   }
 
+  if (rc == LDB_OK && current_entries > 0)
+    LCDB_KEEP(db->dbname, (unsigned long)output_number);
+
+  LCDB_EV(("CompOutDone",
+           "\"num\":%lu,\"size\":%lu,\"entries\":%lu,\"rc\":%d",
+           (unsigned long)output_number, (unsigned long)current_bytes,
+           (unsigned long)current_entries, rc));
+
+  LCDB_PT(21);
+
   return rc;
 }
 
@@ -1321,6 +1447,10 @@ ldb_do_compaction_work(ldb_t *db, ldb_cstate_t *state) {
 
   input = ldb_inputiter_create(db->versions, state->compaction);
 
+#ifdef LCDB_VERIF
+  verif_comp_pick(db, state, db->manual_compaction != NULL);
+#endif
+
   /* Release mutex while we're actually doing the compaction work. */
   ldb_mutex_unlock(&db->mutex);
 
@@ -1330,6 +1460,8 @@ ldb_do_compaction_work(ldb_t *db, ldb_cstate_t *state) {
                                                    ldb_order_acquire)) {
     ldb_slice_t key, value;
     int drop = 0;
+
+    LCDB_PT(22);
 
     /* Prioritize immutable compaction work. */
     if (ldb_atomic_load(&db->has_imm, ldb_order_relaxed)) {
@@ -1342,6 +1474,9 @@ ldb_do_compaction_work(ldb_t *db, ldb_cstate_t *state) {
 
         /* Wake up make_room_for_write() if necessary. */
         ldb_cond_broadcast(&db->background_work_finished_signal);
+
+        LCDB_EV(("FlushInComp", "\"cv\":%d",
+                 LCDB_ID(&db->background_work_finished_signal)));
       }
 
       ldb_mutex_unlock(&db->mutex);
@@ -1466,6 +1601,8 @@ ldb_do_compaction_work(ldb_t *db, ldb_cstate_t *state) {
   if (rc == LDB_OK)
     rc = ldb_install_compaction_results(db, state);
 
+  LCDB_EV(("CompInstall", "\"rc\":%d,\"level\":%d", rc, level));
+
   if (rc != LDB_OK)
     ldb_record_background_error(db, rc);
 
@@ -1499,6 +1636,8 @@ ldb_cleanup_compaction(ldb_t *db, ldb_cstate_t *state) {
 
     rb_set64_del(&db->pending_outputs, out->number);
   }
+
+  LCDB_EV(("CompCleanup", "\"outputs\":%d", (int)state->outputs.length));
 
   ldb_cstate_destroy(state);
 }
@@ -1556,6 +1695,9 @@ ldb_background_compaction(ldb_t *db) {
 
     rc = ldb_versions_apply(db->versions, &c->edit, &db->mutex);
 
+    LCDB_EV(("TrivialMove", "\"num\":%lu,\"from\":%d,\"rc\":%d",
+             (unsigned long)f->number, c->level, rc));
+
     if (rc != LDB_OK)
       ldb_record_background_error(db, rc);
 
@@ -1604,6 +1746,8 @@ ldb_background_compaction(ldb_t *db) {
     }
 
     db->manual_compaction = NULL;
+
+    LCDB_EV(("ManualDone", "\"done\":%d,\"level\":%d", m->done, m->level));
   }
 }
 
@@ -1625,6 +1769,8 @@ ldb_maybe_schedule_compaction(ldb_t *db) {
     /* No work to be done. */
   } else {
     db->background_compaction_scheduled = 1;
+    LCDB_EV(("BgSched", "\"imm\":%d,\"manual\":%d", db->imm != NULL,
+             db->manual_compaction != NULL));
     ldb_pool_schedule(db->pool, &ldb_background_call, db);
   }
 }
@@ -1634,6 +1780,9 @@ ldb_background_call(void *ptr) {
   ldb_t *db = ptr;
 
   ldb_mutex_lock(&db->mutex);
+
+  LCDB_OWN("BG", 1);
+  LCDB_EV(("BgStart", "\"x\":0"));
 
   assert(db->background_compaction_scheduled);
 
@@ -1652,6 +1801,11 @@ ldb_background_call(void *ptr) {
   ldb_maybe_schedule_compaction(db);
 
   ldb_cond_broadcast(&db->background_work_finished_signal);
+
+  LCDB_EV(("BgEnd", "\"resched\":%d,\"cv\":%d",
+           db->background_compaction_scheduled,
+           LCDB_ID(&db->background_work_finished_signal)));
+  LCDB_OWN("BG", 0);
 
   ldb_mutex_unlock(&db->mutex);
 }
@@ -1702,6 +1856,10 @@ ldb_internal_iterator(ldb_t *db, const ldb_readopt_t *options,
   ldb_iter_register_cleanup(internal_iter, cleanup_iter_state, cleanup, NULL);
 
   *seed = ++db->seed;
+
+  LCDB_EV(("IterNew", "\"it\":%d,\"seq\":%lu,\"mem\":%d,\"imm\":%d,\"ver\":%d",
+           LCDB_ID(cleanup), (unsigned long)*latest_snapshot, LCDB_ID(db->mem),
+           db->imm != NULL ? LCDB_ID(db->imm) : 0, LCDB_ID(current)));
 
   ldb_mutex_unlock(&db->mutex);
 
@@ -1792,6 +1950,7 @@ ldb_make_room_for_write(ldb_t *db, int force) {
     if (db->bg_error != LDB_OK) {
       /* Yield previous error. */
       rc = db->bg_error;
+      LCDB_EV(("RoomErr", "\"rc\":%d", rc));
       break;
     } else if (allow_delay && L0_FILES >= LDB_L0_SLOWDOWN_WRITES_TRIGGER) {
       /* We are getting close to hitting a hard limit on the number of
@@ -1804,6 +1963,7 @@ ldb_make_room_for_write(ldb_t *db, int force) {
       ldb_sleep_usec(1000);
       allow_delay = 0; /* Do not delay a single write more than once. */
       ldb_mutex_lock(&db->mutex);
+      LCDB_EV(("RoomDelay", "\"x\":0"));
     } else if (!force && ldb_memtable_usage(db->mem) <= write_buffer_size) {
       /* There is room in current memtable. */
       break;
@@ -1811,10 +1971,14 @@ ldb_make_room_for_write(ldb_t *db, int force) {
       /* We have filled up the current memtable, but the previous
          one is still being compacted, so we wait. */
       ldb_log(db->options.info_log, "Current memtable full; waiting...");
+      LCDB_EV(("RoomWait", "\"why\":\"imm\""));
+      LCDB_PT(10);
       ldb_cond_wait(&db->background_work_finished_signal, &db->mutex);
     } else if (L0_FILES >= LDB_L0_STOP_WRITES_TRIGGER) {
       /* There are too many level-0 files. */
       ldb_log(db->options.info_log, "Too many L0 files; waiting...");
+      LCDB_EV(("RoomWait", "\"why\":\"l0\""));
+      LCDB_PT(10);
       ldb_cond_wait(&db->background_work_finished_signal, &db->mutex);
     } else {
       ldb_wfile_t *lfile = NULL;
@@ -1867,6 +2031,10 @@ ldb_make_room_for_write(ldb_t *db, int force) {
       db->mem = ldb_memtable_create(&db->internal_comparator);
 
       ldb_memtable_ref(db->mem);
+
+      LCDB_EV(("MemSwitch", "\"newlog\":%lu,\"mem\":%d,\"imm\":%d",
+               (unsigned long)new_log_number, LCDB_NEWID(db->mem),
+               LCDB_ID(db->imm)));
 
       force = 0; /* Do not force another compaction if have room. */
       ldb_maybe_schedule_compaction(db);
@@ -2051,6 +2219,11 @@ ldb_open(const char *dbname, const ldb_dbopt_t *options, ldb_t **dbptr) {
     ldb_maybe_schedule_compaction(db);
   }
 
+  LCDB_EV(("OpenDone", "\"rc\":%d,\"log\":%lu,\"mem\":%d,\"lastseq\":%lu", rc,
+           (unsigned long)db->logfile_number,
+           db->mem != NULL ? LCDB_NEWID(db->mem) : 0,
+           (unsigned long)db->versions->last_sequence));
+
   ldb_mutex_unlock(&db->mutex);
 
   if (rc == LDB_OK) {
@@ -2105,6 +2278,10 @@ ldb_get(ldb_t *db, const ldb_slice_t *key,
 
   ldb_version_ref(current);
 
+  LCDB_EV(("GetCap", "\"seq\":%lu,\"snap\":%d,\"mem\":%d,\"imm\":%d,\"ver\":%d",
+           (unsigned long)snapshot, options->snapshot != NULL,
+           LCDB_ID(mem), imm != NULL ? LCDB_ID(imm) : 0, LCDB_ID(current)));
+
   /* Unlock while reading from files and memtables. */
   {
     ldb_lkey_t lkey;
@@ -2113,6 +2290,8 @@ ldb_get(ldb_t *db, const ldb_slice_t *key,
 
     /* First look in the memtable, then in the immutable memtable (if any). */
     ldb_lkey_init(&lkey, key, snapshot);
+
+    LCDB_PT(30);
 
     if (ldb_memtable_get(mem, &lkey, value, &rc)) {
       /* Done. */
@@ -2137,6 +2316,8 @@ ldb_get(ldb_t *db, const ldb_slice_t *key,
     ldb_memtable_unref(imm);
 
   ldb_version_unref(current);
+
+  LCDB_EV(("GetDone", "\"rc\":%d", rc));
 
   ldb_mutex_unlock(&db->mutex);
 
@@ -2207,14 +2388,22 @@ ldb_write(ldb_t *db, ldb_batch_t *updates, const ldb_writeopt_t *options) {
 
   ldb_queue_push(&db->writers, &w);
 
+  LCDB_EV(("WEnq", "\"w\":%d,\"cv\":%d,\"sync\":%d,\"count\":%d", LCDB_ID(&w),
+           LCDB_ID(&w.cv), w.sync,
+           updates != NULL ? (int)ldb_batch_count(updates) : -1));
+
   while (!w.done && &w != db->writers.head)
     ldb_cond_wait(&w.cv, &db->mutex);
 
   if (w.done) {
+    LCDB_EV(("WFollowerRet", "\"w\":%d,\"rc\":%d", LCDB_ID(&w), w.status));
     ldb_mutex_unlock(&db->mutex);
     ldb_waiter_clear(&w);
     return w.status;
   }
+
+  LCDB_OWN("LEADER", 1);
+  LCDB_EV(("WLead", "\"w\":%d", LCDB_ID(&w)));
 
   /* May temporarily unlock and wait. */
   rc = ldb_make_room_for_write(db, updates == NULL);
@@ -2227,6 +2416,11 @@ ldb_write(ldb_t *db, ldb_batch_t *updates, const ldb_writeopt_t *options) {
     ldb_batch_set_sequence(write_batch, last_sequence + 1);
 
     last_sequence += ldb_batch_count(write_batch);
+
+#ifdef LCDB_VERIF
+    verif_group(db, last_writer, db->versions->last_sequence + 1,
+                (int)ldb_batch_count(write_batch), options->sync);
+#endif
 
     /* Add to log and apply to memtable. We can release the lock
        during this phase since &w is currently responsible for logging
@@ -2242,15 +2436,26 @@ ldb_write(ldb_t *db, ldb_batch_t *updates, const ldb_writeopt_t *options) {
 
       rc = ldb_writer_add_record(db->log, &contents);
 
+      LCDB_EV(("LogAppend", "\"rc\":%d,\"log\":%lu", rc,
+               (unsigned long)db->logfile_number));
+
       if (rc == LDB_OK && options->sync) {
         rc = ldb_wfile_sync(db->logfile);
+
+        LCDB_EV(("LogSync", "\"rc\":%d", rc));
 
         if (rc != LDB_OK)
           sync_error = 1;
       }
 
+      LCDB_PT(40);
+
       if (rc == LDB_OK)
         rc = ldb_batch_insert_into(write_batch, db->mem);
+
+      LCDB_EV(("MemInsert", "\"rc\":%d,\"mem\":%d", rc, LCDB_ID(db->mem)));
+
+      LCDB_PT(41);
 
       ldb_mutex_lock(&db->mutex);
 
@@ -2268,6 +2473,8 @@ ldb_write(ldb_t *db, ldb_batch_t *updates, const ldb_writeopt_t *options) {
     assert(last_sequence >= db->versions->last_sequence);
 
     db->versions->last_sequence = last_sequence;
+
+    LCDB_EV(("WPublish", "\"last\":%lu,\"rc\":%d", (unsigned long)last_sequence, rc));
   }
 
   for (;;) {
@@ -2287,7 +2494,12 @@ ldb_write(ldb_t *db, ldb_batch_t *updates, const ldb_writeopt_t *options) {
   if (db->writers.length > 0)
     ldb_cond_signal(&db->writers.head->cv);
 
+  LCDB_EV(("WDone", "\"w\":%d,\"last\":%d,\"rc\":%d,\"qlen\":%d", LCDB_ID(&w),
+           LCDB_ID(last_writer), rc, db->writers.length));
+  LCDB_OWN("LEADER", 0);
+
   ldb_mutex_unlock(&db->mutex);
+  LCDB_PT(42);
   ldb_waiter_clear(&w);
 
   return rc;
@@ -2303,6 +2515,8 @@ ldb_snapshot(ldb_t *db) {
   seq = db->versions->last_sequence;
   snap = ldb_snaplist_new(&db->snapshots, seq);
 
+  LCDB_EV(("SnapNew", "\"snap\":%d,\"seq\":%lu", LCDB_NEWID(snap), (unsigned long)seq));
+
   ldb_mutex_unlock(&db->mutex);
 
   return snap;
@@ -2311,6 +2525,8 @@ ldb_snapshot(ldb_t *db) {
 void
 ldb_release(ldb_t *db, const ldb_snapshot_t *snapshot) {
   ldb_mutex_lock(&db->mutex);
+
+  LCDB_EV(("SnapRel", "\"snap\":%d", LCDB_ID(snapshot)));
 
   ldb_snaplist_delete(&db->snapshots, snapshot);
 
@@ -2530,7 +2746,11 @@ ldb_backup(ldb_t *db, const char *name) {
 
     ldb_versions_add_files(db->versions, &live);
 
+    LCDB_EV(("BackupCopy", "\"lastseq\":%lu", (unsigned long)db->versions->last_sequence));
+
     rc = ldb_backup_inner(db->dbname, name, &live);
+
+    LCDB_EV(("BackupDone", "\"rc\":%d", rc));
 
     rb_set64_clear(&live);
   }
@@ -2746,6 +2966,7 @@ ldb_test_compact_range(ldb_t *db, int level,
          db->bg_error == LDB_OK) {
     if (db->manual_compaction == NULL) { /* Idle. */
       db->manual_compaction = &manual;
+      LCDB_EV(("ManualSet", "\"level\":%d", level));
       ldb_maybe_schedule_compaction(db);
     } else { /* Running either my compaction or another compaction. */
       ldb_cond_wait(&db->background_work_finished_signal, &db->mutex);
